@@ -250,14 +250,23 @@ type Analysis struct {
 	Nullable map[string]bool            // rule may succeed without consuming
 	First    map[string]map[string]bool // rule -> rules it may invoke at its own start offset
 	handlers map[string][]*Expr         // throw label -> recovery expressions anywhere in the grammar
+	// Conv: treat throw/recover by pigeon's static convention instead of the dynamic reading: a
+	// recovery operator may begin with its guarded or its recovery expression, a throw begins with
+	// nothing and counts as nullable
+	Conv bool
 }
 
 // Analyze computes a least fixpoint of "may succeed consuming nothing" and the first-call graph.
 // Predicates are transparent for first-calls (their operand starts at the same offset) and always
 // nullable. A throw may run any recovery expression registered for its label (dynamic scoping is
 // over-approximated by "any handler of that label in the grammar").
-func Analyze(g *Grammar) *Analysis {
-	a := &Analysis{G: g, Nullable: map[string]bool{}, First: map[string]map[string]bool{}, handlers: map[string][]*Expr{}}
+func Analyze(g *Grammar) *Analysis { return analyze(g, false) }
+
+// AnalyzeConv is Analyze under pigeon's static convention for throw/recover.
+func AnalyzeConv(g *Grammar) *Analysis { return analyze(g, true) }
+
+func analyze(g *Grammar, conv bool) *Analysis {
+	a := &Analysis{G: g, Nullable: map[string]bool{}, First: map[string]map[string]bool{}, handlers: map[string][]*Expr{}, Conv: conv}
 	for _, r := range g.Rules {
 		Walk(r.Expr, func(e *Expr) {
 			if e.Kind == Recovery {
@@ -312,6 +321,9 @@ func (a *Analysis) ExprNullable(e *Expr) bool {
 	case Class, Any:
 		return false
 	case Throw:
+		if a.Conv {
+			return true
+		}
 		for _, h := range a.handlers[e.Label] {
 			if a.ExprNullable(h) {
 				return true
@@ -319,6 +331,9 @@ func (a *Analysis) ExprNullable(e *Expr) bool {
 		}
 		return false
 	case Recovery:
+		if a.Conv {
+			return a.ExprNullable(e.Subs[0]) || a.ExprNullable(e.Subs[1])
+		}
 		return a.ExprNullable(e.Subs[0])
 	}
 	return false
@@ -343,11 +358,17 @@ func (a *Analysis) firstCalls(e *Expr, m map[string]bool) {
 	case RuleRef:
 		m[e.Name] = true
 	case Throw:
+		if a.Conv {
+			return
+		}
 		for _, h := range a.handlers[e.Label] {
 			a.firstCalls(h, m)
 		}
 	case Recovery:
 		a.firstCalls(e.Subs[0], m)
+		if a.Conv {
+			a.firstCalls(e.Subs[1], m)
+		}
 	}
 }
 
